@@ -2321,6 +2321,9 @@ class Recipe:
                 if isinstance(solvent, Container):
                     self.used.add(solvent.name)
                     self.results[solvent.name], self.results[dest_name] = results
+                    # the solvent container is the source of this step
+                    step.objects_used.add(solvent.name)
+                    step.frm = [solvent, self.results[solvent.name]]
                 else:
                     self.results[dest_name] = results
                 step.substances_used = self.results[dest_name].get_substances()
